@@ -137,9 +137,16 @@ fn run_case(case: &Case, obs: &mut Obs) -> Result<(), Failure> {
                 return obs.fail("C23:old-schema-refused", format!("schema v{} database with stored {stored:?} sampled {sampled:?} failed to open: {e}", case.version));
             }
         };
-        let (gs, gp, gr) = rt.block_on(async {
-            (bv(&store.get_stored_header_ranges().await.unwrap()), bv(&store.get_sampled_ranges().await.unwrap()), bv(&store.get_pruned_ranges().await.unwrap()))
-        });
+        let got = rt.block_on(async { (store.get_stored_header_ranges().await, store.get_sampled_ranges().await, store.get_pruned_ranges().await) });
+        let (gs, gp, gr) = match got {
+            (Ok(a), Ok(b), Ok(c)) => (bv(&a), bv(&b), bv(&c)),
+            (a, b, c) => {
+                return obs.fail(
+                    "C23:ranges-unreadable-after-migration",
+                    format!("v{}: written stored {stored:?} sampled {sampled:?}; after migration reading ranges failed: {:?} {:?} {:?}", case.version, a.err().map(|e| e.to_string()), b.err().map(|e| e.to_string()), c.err().map(|e| e.to_string())),
+                );
+            }
+        };
         rt.block_on(store.close()).unwrap();
         obs.check(gs == stored, "C23:stored-ranges-changed", || format!("v{}: stored ranges written {stored:?}, reported after migration {gs:?}", case.version))?;
         obs.check(gp == sampled, "C23:sampled-ranges-changed", || format!("v{}: sampled ranges written {sampled:?}, reported after migration {gp:?}", case.version))?;
@@ -159,7 +166,12 @@ fn run_case(case: &Case, obs: &mut Obs) -> Result<(), Failure> {
                 let _ = rt.block_on(s.close());
                 obs.fail("C23:newer-schema-accepted", format!("database with schema version {} was opened", case.version))?;
             }
-            Err(_) => {}
+            Err(e) => {
+                let msg = e.to_string();
+                // a refusal produced by a panic inside the open path (e.g. a debug assertion that only
+                // exists in checked builds) is not a refusal of the schema version
+                obs.check(!msg.contains("panicked"), "C23:newer-schema-refused-by-panic", || format!("schema v{} database was only refused because the open path panicked: {msg}", case.version))?;
+            }
         }
         let raw_after = read_raw(&db);
         obs.check(raw_after == raw_before, "C23:refused-database-modified", || format!("refused v{} database changed: before {raw_before:?} after {raw_after:?}", case.version))?;
